@@ -101,6 +101,36 @@ func (c *Ctx) lexModel() (*lexModel, string) {
 		}
 	}
 	if m.peek == nil {
+		// … or one that decodes the rune at the cursor itself and leaves the cursor where it is
+		fInput := FieldVar(m.lexer, "input")
+		for _, fn := range c.Funcs {
+			if recv := fn.Signature.Recv(); recv == nil || namedOf(recv.Type()) != m.lexer || fn == m.next || fn.Blocks == nil {
+				continue
+			}
+			if fn.Signature.Results().Len() != 1 || !isRune(fn.Signature.Results().At(0).Type()) || fn.Signature.Params().Len() != 0 {
+				continue
+			}
+			readsPos, readsInput, writes := false, false, false
+			eachInstr(fn, func(in ssa.Instruction) {
+				switch x := in.(type) {
+				case *ssa.FieldAddr:
+					if _, f, _ := fieldOf(x); f == fPos {
+						readsPos = true
+					} else if f == fInput && fInput != nil {
+						readsInput = true
+					}
+				case *ssa.Store:
+					if _, isAl := x.Addr.(*ssa.Alloc); !isAl {
+						writes = true
+					}
+				}
+			})
+			if readsPos && readsInput && !writes {
+				m.peek = fn
+			}
+		}
+	}
+	if m.peek == nil {
 		return nil, "peek (rune-returning lexer method built on the rune reader) not found"
 	}
 	// ground: the initial state stored into lexer.state by the constructor
@@ -110,6 +140,13 @@ func (c *Ctx) lexModel() (*lexModel, string) {
 			if f := funcValue(st.Val); f != nil {
 				if _, isAlloc := rootOf(st.Addr).(*ssa.Alloc); isAlloc {
 					m.ground = f
+				}
+				// … or by a constructor that takes the object from somewhere (a pool) and hands it out
+				res := fn.Signature.Results()
+				for i := 0; i < res.Len(); i++ {
+					if pt, isP := res.At(i).Type().(*types.Pointer); isP && namedOf(pt.Elem()) == m.lexer && m.ground == nil {
+						m.ground = f
+					}
 				}
 			}
 		}
